@@ -279,7 +279,11 @@ func runC38(r *core.Run) {
 			}
 		}()
 	}
+	only := os.Getenv("C38_BATCHES") // debugging aid: comma separated batch indexes
 	for i := range batches {
+		if only != "" && !strings.Contains(","+only+",", fmt.Sprintf(",%d,", i)) {
+			continue
+		}
 		ch <- i
 	}
 	close(ch)
@@ -365,7 +369,7 @@ func c38RunBatchInChildren(r *core.Run, bi int, loop string, from, to int, dir s
 				r.Count("harness_gap", 1)
 				r.Seen("harness_gaps", c38Normalize(inf.Route+" crash "+site+" "+msg, 160))
 			} else {
-				sig := fmt.Sprintf("C38/%s:%s:crash:%s", inf.Route, inf.Class, site)
+				sig := fmt.Sprintf("C38/%s:%s:crash:%s", inf.Route, c38Channel(inf.Class), site)
 				(&core.Case{R: r, Loop: loop, Index: inf.Case}).Violation(sig, map[string]any{
 					"what":                    "the server PROCESS died (panic outside the request goroutine / fatal error) while serving this request",
 					"route":                   inf.Route,
